@@ -7,6 +7,7 @@ mod edits;
 mod exec;
 mod faults;
 mod heap;
+mod mirdump;
 mod patterns;
 mod positions;
 mod progs;
@@ -32,6 +33,7 @@ fn main() {
     "compile" => compile::main(rest),
     "mir-dump" => compile::mir_dump_main(rest),
     "mir-types" => compile::mir_types_main(rest),
+    "mir-json" => mirdump::main(rest),
     "run-programs" => progs::main(rest),
     "mutate" => faults::main(rest),
     "front-run" => faults::front_run(rest),
